@@ -55,8 +55,16 @@ type FuncSpec struct {
 	Pkg      string
 	Where    string
 	Asserts  map[string]bool
+	GhostInit []GhostInit // ghost entries of freshly allocated results defined at return
 	NoWrap   bool     // stated assumption: unsigned additions in this function do not wrap around
 	Refines  []string // interface methods ("pkg.Iface.Method") whose contract this implementation must satisfy
+}
+
+type GhostInit struct {
+	Ghost string
+	Key   ast.Expr
+	Val   ast.Expr
+	Src   string
 }
 
 type GhostDecl struct {
@@ -132,7 +140,7 @@ func extractSpecLines(text string) (lines []string, nums []int) {
 	return
 }
 
-var clauseKeywords = []string{"requires", "ensures", "modifies", "loop", "invariant", "decreases", "let", "fresh", "pure", "trusted", "effect", "crash", "havoc", "assume", "refines"}
+var clauseKeywords = []string{"requires", "ensures", "modifies", "loop", "invariant", "decreases", "let", "fresh", "pure", "trusted", "effect", "crash", "havoc", "assume", "refines", "ghostinit"}
 var blockKeywords = []string{"func", "invoke", "ghost", "spec", "pred", "axiom", "global", "abstraction", "writers", "typeinv", "callbackframe"}
 
 func firstWord(s string) (string, string) {
@@ -604,6 +612,20 @@ func (sp *Specs) parseSpecText(file, text, pkgPath string) {
 				for _, n := range strings.Split(rest, ",") {
 					cur.Fresh = append(cur.Fresh, strings.TrimSpace(n))
 				}
+			case "ghostinit":
+				// ghostinit name(key) = value   : key must denote an object allocated by this function
+				m := regexp.MustCompile(`^([A-Za-z_][A-Za-z0-9_]*)\((.*)\)\s*=\s*(.*)$`).FindStringSubmatch(rest)
+				if m == nil {
+					sp.errf(where, "bad ghostinit")
+					continue
+				}
+				ke, _, err1 := parseSpecExpr(m[2])
+				ve, _, err2 := parseSpecExpr(m[3])
+				if err1 != nil || err2 != nil {
+					sp.errf(where, "ghostinit: %v %v", err1, err2)
+					continue
+				}
+				cur.GhostInit = append(cur.GhostInit, GhostInit{Ghost: m[1], Key: ke, Val: ve, Src: rest})
 			case "assume":
 				if strings.TrimSpace(rest) == "nowrap" {
 					cur.NoWrap = true
